@@ -30,7 +30,11 @@ Bases == <<
   \* counterfactual distributions: the same variable in several worlds on one side of the bar (the ordering given to
   \* canonicalize ranks names only, so these variables tie)
   MT(<<PT(<<VI(1, <<<<2, 1>>>>), VI(1, <<<<3, 1>>>>), VI(1, <<<<4, 1>>>>)>>, <<>>, 0), P0(<<2>>, <<3>>)>>),
-  MT(<<PT(<<VI(2, <<<<3, 1>>>>)>>, <<VI(1, <<<<2, 1>>>>), VI(1, <<<<3, 2>>>>), V0(4)>>, 0), P0(<<4>>, <<>>)>>)
+  MT(<<PT(<<VI(2, <<<<3, 1>>>>)>>, <<VI(1, <<<<2, 1>>>>), VI(1, <<<<3, 2>>>>), V0(4)>>, 0), P0(<<4>>, <<>>)>>),
+  \* sums over products one of which is a prefix of the other, and sums over the same product with different ranges
+  \* (the factor order must be total and computable for sort keys of different lengths)
+  MT(<<ST(<<2>>, MT(<<P0(<<1>>, <<>>), P0(<<2>>, <<1>>), P0(<<3>>, <<1, 2>>)>>)), ST(<<2>>, MT(<<P0(<<1>>, <<>>), P0(<<2>>, <<1>>)>>)),
+       ST(<<1>>, MT(<<P0(<<1>>, <<>>), P0(<<2>>, <<1>>)>>)), P0(<<4>>, <<>>)>>)
 >>
 
 Permuted(s, q) == [i \in DOMAIN s |-> s[q[i]]]
